@@ -146,6 +146,11 @@ thread_local! {
     static CUR_RUN: std::cell::Cell<usize> = std::cell::Cell::new(usize::MAX);
 }
 static JOURNAL_PATH: Mutex<Option<PathBuf>> = Mutex::new(None);
+static JOURNAL_PROP: Mutex<String> = Mutex::new(String::new());
+
+pub fn set_journal_property(p: &str) {
+    *JOURNAL_PROP.lock().unwrap() = p.to_string();
+}
 
 pub fn set_journal(p: Option<PathBuf>) {
     *JOURNAL_PATH.lock().unwrap() = p;
@@ -160,7 +165,8 @@ pub fn journal(history: &[Value], op: &Value) {
     if let Some(p) = jp {
         let mut sched: Vec<Value> = history.to_vec();
         sched.push(op.clone());
-        let doc = json!({"format": 1, "inflight": true, "schedule": sched});
+        let prop = JOURNAL_PROP.lock().unwrap().clone();
+        let doc = json!({"format": 1, "inflight": true, "property": prop, "oracle": "outcome-class (in-flight op did not return)", "schedule": sched});
         let tmp = p.with_extension("tmp");
         if let Ok(mut f) = std::fs::File::create(&tmp) {
             let _ = f.write_all(doc.to_string().as_bytes());
@@ -189,8 +195,9 @@ pub fn spawn_watchdog(on_stuck: impl Fn(usize) + Send + 'static) {
     std::thread::spawn(move || loop {
         std::thread::sleep(Duration::from_millis(500));
         if let Some(run) = stuck_run() {
+            // on_stuck prints the VIOLATION line (outcome=timeout): this is a violation, exit 1
             on_stuck(run);
-            std::process::exit(3);
+            std::process::exit(1);
         }
     });
 }
